@@ -12,21 +12,22 @@ Inductive exn :=
 | LogicErr (site : Z)       (* std::logic_error; site identifies the throw statement *)
 | OutOfBuffers              (* std::runtime_error("out of buffers") *)
 | InvalidArg (site : Z)     (* std::invalid_argument *)
-| OutOfRange                (* std::out_of_range / runtime_error "out of range" *)
-| BrokenPromise.            (* std::future_error(broken_promise), as seen through a future *)
+| OutOfRange                (* std::out_of_range (a std::logic_error) *)
+| BrokenPromise             (* std::future_error(broken_promise), as seen through a future *)
+| RuntimeErr (site : Z).    (* any other std::runtime_error *)
 
 (* whether a C++ handler `catch(std::runtime_error const &)` catches it
    (system_error derives from runtime_error; logic_error does not) *)
 Definition is_runtime_error (e : exn) : bool :=
   match e with
-  | SysErr _ | GaiErr _ | ConnClosed | OutOfBuffers | OutOfRange => true
-  | LogicErr _ | InvalidArg _ | BrokenPromise => false
+  | SysErr _ | GaiErr _ | ConnClosed | OutOfBuffers | RuntimeErr _ => true
+  | LogicErr _ | InvalidArg _ | BrokenPromise | OutOfRange => false
   end.
 
 Definition exn_code (e : exn) : list Z :=
   match e with
   | SysErr n => [1; n] | GaiErr c => [2; c] | ConnClosed => [3; 0] | LogicErr s => [4; s]
-  | OutOfBuffers => [5; 0] | InvalidArg s => [6; s] | OutOfRange => [7; 0] | BrokenPromise => [8; 0]
+  | OutOfBuffers => [5; 0] | InvalidArg s => [6; s] | OutOfRange => [7; 0] | BrokenPromise => [8; 0] | RuntimeErr _ => [9; 0]
   end.
 
 (* ---- results -------------------------------------------------------------------------------- *)
